@@ -328,8 +328,21 @@ func (s *Service) Answer(r gqlReq) (map[string]interface{}, *ReqLog) {
 	doc, perr := gqlparser.LoadQuery(s.Schema, r.Query)
 	if perr != nil {
 		// distinguish syntax from validation errors
-		if _, e2 := parseOnly(r.Query); e2 == nil {
+		if d2, e2 := parseOnly(r.Query); e2 == nil {
 			lg.Parses = true
+			// what the request is, even though this service will not execute it
+			if len(d2.Operations) == 1 {
+				lg.Kw = string(d2.Operations[0].Operation)
+				for _, sel := range d2.Operations[0].SelectionSet {
+					if f, ok := sel.(*ast.Field); ok {
+						alias := f.Alias
+						if alias == "" {
+							alias = f.Name
+						}
+						lg.Roots = append(lg.Roots, RootSel{Key: alias, Name: f.Name})
+					}
+				}
+			}
 		}
 		return fail("fake service rejects the request: " + perr.Error())
 	}
